@@ -166,13 +166,26 @@ func TestVerif_C12_Invitations(t *testing.T) {
 // in a group joined by invitation the account acts under keys derived for that group
 func TestVerif_C12_Identity(t *testing.T) {
 	acct := vacct.Get("C12")
-	vacct.RapidCheck(t, vacct.N(4, 600), func(rt *rapid.T) {
+	vacct.RapidCheck(t, vacct.N(6, 600), func(rt *rapid.T) {
 		w := vNewReplica(t, "W", nil)
 		defer w.close()
 		acc := w.accountGroup(t)
 		agc := w.open(t, acc)
 		defer agc.Close()
 		inv, _, _ := NewGroupMultiMember()
+		named := rapid.Bool().Draw(rt, "named-after-contact")
+		if named {
+			// the invitation comes from a contact the account already knows, and the group identifier is that
+			// contact's account key (its owner can sign such an invitation)
+			csk, cpk, _ := crypto.GenerateEd25519Key(crand.Reader)
+			if _, err := w.ss.GetGroupForContact(cpk); err != nil {
+				rt.Fatalf("harness: %v", err)
+			}
+			sec := make([]byte, 32)
+			_, _ = crand.Read(sec)
+			sig, _ := csk.Sign(sec)
+			inv = &protocoltypes.Group{PublicKey: vRawPK(cpk), Secret: sec, SecretSig: sig, GroupType: protocoltypes.GroupType_GroupTypeMultiMember}
+		}
 		if _, err := agc.MetadataStore().GroupJoin(vCtx, inv); err != nil {
 			rt.Fatalf("harness: %v", err)
 		}
@@ -202,6 +215,18 @@ func TestVerif_C12_Identity(t *testing.T) {
 		if err != nil {
 			rt.Fatalf("harness: %v", err)
 		}
+		// the keys derived for the group, as another device of the same account (fresh store, imported keys) derives them
+		ka, kb, err := w.ss.ExportAccountKeysForBackup()
+		if err != nil {
+			rt.Fatalf("harness: %v", err)
+		}
+		fresh, _ := secretstore.NewInMemSecretStore(nil)
+		if err := fresh.ImportAccountKeys(ka, kb); err != nil {
+			rt.Fatalf("harness: %v", err)
+		}
+		if fm, err := fresh.GetOwnMemberDeviceForGroup(inv); err != nil || !fm.Member().Equals(derived.Member()) {
+			fail("not-group-derived-keys", "the member key used in the joined group is not the one derived for that group from the account's keys (group named after a known contact: %v)", named)
+		}
 		evs, err := c13AllMeta(gc)
 		if err != nil || len(evs) == 0 {
 			rt.Fatalf("harness: no announcement in the group log: %v", err)
@@ -226,7 +251,7 @@ func TestVerif_C12_Identity(t *testing.T) {
 		if !found {
 			rt.Fatalf("harness: no GroupMemberDeviceAdded event")
 		}
-		acct.Case(true, fmt.Sprintf("identity|%x", inv.PublicKey[:6]), func() any { return map[string]any{"kind": "joined-group-identity"} }, "identity")
+		acct.Case(true, fmt.Sprintf("identity|%x", inv.PublicKey[:6]), func() any { return map[string]any{"kind": "joined-group-identity", "group_named_after_known_contact": named} }, "identity", lbl07(named, "identity/group-named-after-contact"))
 	})
 }
 
